@@ -1,7 +1,11 @@
 #!/bin/bash
-# runall.sh [tier] : run every registered check once against /repo, print the summary line of each
+# runall.sh [tier] [evidence-dir]: run every registered check once against /repo from the directory this script
+# lives in (so it works inside a `vp run` snapshot), print the summary lines; optional evidence-dir keeps
+# /verif/evidence untouched (used for background thorough sweeps).
 tier=${1:-quick}
-cd /verif
+here=$(cd "$(dirname "$0")/.." && pwd)
+cd "$here"
+if [ -n "$2" ]; then export VERIF_EVIDENCE_DIR="$2" VERIF_REPLAY_DIR="$2/replays"; mkdir -p "$2"; fi
 for i in $(seq -w 1 19); do
-  /venv/bin/python -m mc.run C$i --tier $tier 2>&1 | grep -E "^VIOLATION|^HARNESS|^KNOWN-FINDING|\] (OK|FAIL)" | cut -c1-200
+  /venv/bin/python -m mc.run C$i --tier $tier 2>&1 | grep -E "^VIOLATION|^  sig=|^HARNESS|^KNOWN-FINDING|layer .*CAPPED|\] (OK|FAIL)" | cut -c1-220
 done
